@@ -171,6 +171,34 @@ def base_problems(cvxopt, rng, count):
         out.append(('cp%d' % i, 'cpl', run_cp))
     return out
 
+def precision_runs(ctx, cvxopt, rng):
+    """well-posed planted problems solved with tolerances below what double precision can deliver (1e-13): the iteration breaks down
+    numerically (an iterate leaves the cone by rounding, a step length divides by zero).  The documented outcomes are 'optimal' or 'unknown';
+    any exception that leaves the solver is reported per entry point and exception type."""
+    from corr import problems as PR
+    from cvxopt import solvers
+    n = 40 if ctx.quick() else 500
+    seen = {}; stat = {}
+    for i in range(n):
+        qp = rng.random() < 0.4
+        pr = PR.planted_conelp(rng, 'optimal', P_rank=(rng.randint(1, 3) if qp else None))
+        c, G, h, A, b, P = PR.to_cvx(cvxopt, pr)
+        o = {'show_progress': False, 'feastol': 1e-13, 'abstol': 1e-13, 'reltol': 1e-13}
+        ent = 'coneqp' if qp else 'conelp'
+        try:
+            r = quiet(solvers.coneqp, P, c, G, h, pr.dims, A, b, options=o) if qp else quiet(solvers.conelp, c, G, h, pr.dims, A, b, options=o)
+            k = ent + ':' + r['status']
+        except Exception as e:
+            k = ent + ':' + type(e).__name__
+            if (ent, type(e).__name__) not in seen:
+                seen[(ent, type(e).__name__)] = True
+                ctx.violation('c10:numerical-breakdown-escapes:%s:%s' % (ent, type(e).__name__),
+                              "%s with tolerances 1e-13 on a strictly feasible planted problem raised %s (%s) instead of returning 'unknown'" % (ent, type(e).__name__, str(e)[:60]),
+                              {'entry': ent, 'dims': pr.dims, 'c': pr.c, 'G': pr.G, 'h': pr.h, 'A': pr.A, 'b': pr.b, 'P': pr.P, 'options': {k_: v for k_, v in o.items()}})
+        stat[k] = stat.get(k, 0) + 1
+    ctx.cov['precision_runs'] = stat
+    return n
+
 def judge_unknown(cvxopt, r, D):
     """an 'unknown' result of conelp / coneqp with 's' blocks: s and z are the last iterates - symmetric blocks, strictly inside the cone - and
     the accuracy fields are those of the returned vectors (gap = <s, z>, primal infeasibility = ||Gx + s - h|| / max(1, ||h||))"""
@@ -286,6 +314,7 @@ def correspond(ctx):
             if dis <= 3: ctx.broke('correspondence C10 (generated site model vs real outcome)', {'line': l, 'impl': e, 'model': o, 'case': m})
     evals += malformed(ctx, cvxopt)
     evals += domain_runs(ctx, cvxopt, rng)
+    evals += precision_runs(ctx, cvxopt, rng)
     ctx.cov.update({'evaluations': evals, 'distinct_nontrivial': len(distinct),
                     'rule': 'for each of %d base problems per solver (conelp l+q cone, coneqp, coneqp without cone, cpl, cp): a fault-free '
                             'run counts the KKT factor and solve calls, then one run per call index with an ArithmeticError injected '
